@@ -188,7 +188,9 @@ theorem builtin_ok : ∀ e ∈ builtinTable, SpecOK e.2 := by
        first
         | exact AL_call _ h (by simp only [fnArity]; omega)
         | (show AL (if _ then _ else _); split <;> exact AL_call _ h (by simp only [fnArity]; omega))
-        | (dsimp only; split <;> exact AL_call _ h (by simp only [fnArity]; omega)))
+        | (dsimp only
+           have : args.length = 2 ∨ args.length = 3 ∨ args.length = 4 := by omega
+           rcases this with e | e | e <;> rw [e] <;> exact AL_call _ h (by simp only [fnArity]; omega)))
     | (rintro args ⟨h, h1⟩
        simp only [AL, INode.all, Bool.and_eq_true, pAll, INode.arityHead, INode.litOk, decide_eq_true_eq]
        exact ⟨⟨h1, trivial⟩, h⟩)
